@@ -173,6 +173,18 @@ def gen_cases(tier):
             sn = list(SCRIPTS)[(n + j) % len(SCRIPTS)]
             L = script_lines(sn)
             cases.append({"script": sn, "ins": [["trail" if st.startswith("t") else "whole", st, 2000 + n, (n + j) % len(L)]]})
+    # wave 8: every ordered PAIR of comment styles (an earlier comment of one kind must not change how a later comment of another kind
+    # ends), the first early in the script and the second later, at three position pairs
+    for sn in ("s1", "s3"):
+        L = script_lines(sn)
+        n = len(L)
+        for a in list(WHOLE) + list(TRAIL):
+            for b in list(WHOLE) + list(TRAIL):
+                for p1, p2 in ((0, n // 2), (1, n), (n // 2, n - 1)):
+                    ka, kb = ("trail" if a in TRAIL else "whole"), ("trail" if b in TRAIL else "whole")
+                    if ka == "trail" and kb == "trail" and p1 == p2:
+                        continue
+                    cases.append({"script": sn, "ins": [[ka, a, 0, min(p1, n - 1) if ka == "trail" else p1], [kb, b, 15, min(p2, n - 1) if kb == "trail" else p2]]})
     if tier == "thorough":
         for sn in SCRIPTS:
             L = script_lines(sn)
